@@ -236,8 +236,24 @@ RULES.append(("C15.g", "inventory: no new narrowing integer cast", rule_inventor
 def _uncast_call(b, operand, site, pat, depth=0):
     """the operand is the unmodified result of a call matching `pat` (moves / copies allowed, no cast, no arithmetic)."""
     import re
-    if operand.get("k") not in ("copy", "move") or operand["pl"]["p"] or depth > 4:
+    if operand.get("k") not in ("copy", "move") or depth > 6:
         return False
+    proj = operand["pl"]["p"]
+    if proj:
+        # one field of a locally built tuple: `let (a, b) = (f(), g());`
+        if len(proj) != 1 or proj[0][0] != "f" or not str(proj[0][1]).isdigit():
+            return False
+        defs = b.reaching_defs(operand["pl"]["l"], site)
+        if not defs:
+            return False
+        for d in defs:
+            if d.is_term or d.node["r"]["r"] != "agg" or d.node["r"].get("kind") not in ("tuple", None) or d.node["r"].get("adt"):
+                return False
+            ops = d.node["r"]["ops"]
+            i = int(proj[0][1])
+            if i >= len(ops) or not _uncast_call(b, ops[i], d, pat, depth + 1):
+                return False
+        return True
     defs = b.reaching_defs(operand["pl"]["l"], site)
     if not defs:
         return False
